@@ -135,6 +135,33 @@ func check(c Case) error {
 	if h != want {
 		return vk.Errf("Hash(%q, %s, circular=%v, doubleStranded=%v) = %s; v1 form of canonical representative %q is %s", s, c.Type, c.Circ, c.DS, h, canon, want)
 	}
+	// point mutants of the same molecule - one letter in the middle replaced by another letter of the sequence, head
+	// and tail as they were - each a fresh string of the same length, hashed, dropped and collected before the next
+	if c.Circ && len(s) >= 64 && len(s) <= 20000 && c.Other == nil {
+		if err := vk.Recycled(3, func(i int) string {
+			b := []byte(s)
+			at := len(b)/2 + i
+			for k := 1; k < len(b); k++ {
+				if o := b[(at+k*7)%len(b)]; o != b[at] {
+					b[at] = o
+					break
+				}
+			}
+			return string(b)
+		}, func(i int, mutant string) error {
+			cm, ok := canonical(mutant, c.Type, c.Circ, c.DS)
+			if !ok {
+				return nil
+			}
+			hm, err := seqhash.Hash(mutant, c.Type, c.Circ, c.DS)
+			if wantM := "v1_" + tag(c.Type, c.Circ, c.DS) + "_" + ref.Blake3Hex([]byte(cm)); err != nil || hm != wantM {
+				return vk.Errf("Hash of a point mutant of the case's sequence (a fresh string of the same %d letters but one, hashed after the earlier ones were dropped and collected) = %s (err %v); v1 form of its canonical representative is %s", len(mutant), hm, err, wantM)
+			}
+			return nil
+		}); err != nil {
+			return err
+		}
+	}
 	// the digest is of the UPPER-CASED canonical representative: the same letters in mixed case
 	// (lower case at even, at odd, and at every third position) must give the same value
 	if len(s) <= 20000 {
